@@ -5,6 +5,8 @@ import (
 	"errors"
 	"net"
 	"time"
+
+	"github.com/arloliu/go-secs/v2/internal/vhook"
 )
 
 // farewellWriteTimeout bounds the courtesy farewell Separate write (§7.E). The farewell is a
@@ -312,6 +314,8 @@ func (c *connection) react(prev, next ConnState) {
 		c.startConnectLoop(e, true) // a post-Selected involuntary drop always counts as a reconnect
 	}
 
+	vhook.At("hsms.react.beforeTeardown")
+
 	// (3) Non-blocking teardown initiator (idempotent closeOnce — the supervisor's evClose
 	// ensure-teardown and this both funnel here). closeSocket() runs unconditionally inside.
 	e.teardown(c.cfg.Load().closeTimeout)
@@ -451,6 +455,8 @@ func (c *connection) connectLoop(prev *epoch, gen uint64, cancel *chan struct{},
 		c.cur.Store(e)
 		c.publishMu.Unlock()
 
+		vhook.At("hsms.connectLoop.afterPublish")
+
 		// Per-generation async sender (dies with the epoch, via epoch.spawn / e.ctx).
 		e.spawn(cfg.logger, "sender", func(ctx context.Context) { c.drainSendCh(ctx, e) })
 
@@ -495,6 +501,8 @@ func nextBackoffDelay(cur time.Duration, multiplier float64, ceil time.Duration)
 // was interrupted by stop (a Close). A non-positive d still honors stop without blocking. It
 // never time.Sleep-polls state — it is a single timer selected against the stop channel.
 func (c *connection) reconnectSleep(d time.Duration, stop <-chan struct{}) bool {
+	vhook.AtDur("hsms.reconnect.sleep", d)
+
 	if d <= 0 {
 		select {
 		case <-stop:
